@@ -112,7 +112,7 @@ def sample(ctx, budget=1.0, hint=None, broken=None):
         start = complex(r.uniform(-1, 1), r.uniform(-1, 1)) * scale
         end = start + complex(r.uniform(-1, 1), r.uniform(-1, 1)) * scale
         rot = r.choice([0, 0, 90, 180, 270, -90, 30, 45.5, 200.5, -135.25, 400.0, 725.0, r.uniform(-720, 720)])
-        rcls = r.choice(['generous', 'generous', 'too-small', 'far-too-small', 'exact', 'just-fitting', 'negative', 'eccentric'])
+        rcls = r.choice(['generous', 'generous', 'too-small', 'far-too-small', 'exact', 'just-fitting', 'negative', 'eccentric', 'snap-band'])
         ch = abs(end - start)
         if ch == 0:
             continue
@@ -125,11 +125,12 @@ def sample(ctx, budget=1.0, hint=None, broken=None):
         elif rcls == 'exact':
             start = complex(r.randint(-8, 8), r.randint(-8, 8)); end = start + r.choice([4, -4, 4j, -4j, 8])
             rad = complex(abs(end - start) / 2, abs(end - start) / 2); rot = r.choice([0, 90, 180]); ch = abs(end - start)
-        elif rcls == 'just-fitting':
-            # radii a hair above the minimum: (1 + eps) * minimal, eps from 1e-3 down to 1e-10
+        elif rcls in ('just-fitting', 'snap-band'):
+            # radii a hair above the minimum: (1 + eps) * minimal; eps 1e-3..1e-7, or inside the band where
+            # the code replaces the radicand (about 2 eps) by 0 because np.isclose(radicand, 0)
             ratio = r.uniform(0.5, 2)
             base = P.Arc(start, complex(1e-9 * ch, 1e-9 * ch * ratio), rot, False, True, end).radius
-            rad = base * (1 + 10.0 ** -r.uniform(3, 10))
+            rad = base * (1 + (10.0 ** -r.uniform(3, 7) if rcls == 'just-fitting' else 10.0 ** -r.uniform(8.6, 10)))
         elif rcls == 'negative':
             rad = complex(-r.uniform(0.6, 3), r.choice([-1, 1]) * r.uniform(0.6, 3)) * ch
         else:
@@ -166,6 +167,11 @@ def sample(ctx, budget=1.0, hint=None, broken=None):
                 break
         near_half = abs(abs(ref[3]) - 180) < 1e-4 or abs(ref[4] - 1) < 1e-9 or ref[4] > 1
         if not near_half:
+            if rcls == 'snap-band':
+                if abs(arc.center - ref[0]) > 1e-6 * size or (abs(arc.delta) > 180) != bool(large):
+                    fail('Arc/snap-band: radicand below 1e-8 replaced by 0', 'radii within ~5e-9 (relative) above the minimal fitting radii: the centre is '
+                         'snapped to the chord midpoint', {'arc': ctor}, repr((arc.center, arc.delta)), repr((ref[0], ref[3])), rep + '.center')
+                continue
             if abs(arc.center - ref[0]) > 1e-6 * size:
                 fail('Arc.center (%s)' % rcls, 'centre differs from F.6.5', {'arc': ctor}, repr(arc.center), repr(ref[0]), rep + '.center')
             if (abs(arc.delta) > 180) != bool(large):
